@@ -230,10 +230,16 @@ def decide(pid, tier, seed):
                 names = [f"{b}@{v}" for v in json.load(open(vj))] if os.path.exists(vj) else [b]
                 for u in names:
                     dfuts.append(ex.submit(run_verus_unit, u, os.path.join(scratch, "d_" + u), "quick", seed))
+            kfuts = []
+            for k in sorted(unitdeps.kani_assumed(set(own) | extra) - set(pc.get("kani", []))):
+                kfuts.append(ex.submit(kunit.run_kani_unit, k, os.path.join(scratch, "dk_" + k), "quick", seed, REPO, None))
             for f in futs:
                 results.append(f.result())
             for f in dfuts:
                 r = f.result(); r.dep_only = True; r.assumed = assumed.get(r.name.split("@")[0], set())
+                results.append(r)
+            for f in kfuts:
+                r = f.result(); r.dep_only = True; r.assumed = None
                 results.append(r)
         # entry points (trait-impl methods, pub functions) that appeared in a file this property's units read after the
         # contracts were written: an operation nobody argued about -> the answer cannot be "holds"
@@ -262,6 +268,16 @@ def report(pid, tier, seed, pc, results, wall, scratch):
         if getattr(r, "dep_only", False):
             # a dependency unit: nothing of it is counted for this property; what matters is whether the functions this
             # property's units assume (stand-ins) still meet their contracts
+            if r.route == "kani":
+                # a Kani unit whose contracts (of the real Counter / Availability / LocalWaker) the Verus stand-ins assume
+                kbad = sorted(set(f["obligation"] for f in r.failures if not any(match_known(known, q, f["obligation"]) for q in f["props"])))
+                if kbad:
+                    undecided.append(f"{r.name} (Kani unit whose contracts {pid}'s Verus units assume): {', '.join(kbad)[:300]} fail(s); {pid} is not answered 'holds' (the violation is reported by the checks that list the unit)")
+                if r.undecided:
+                    undecided.append(f"{r.name} (Kani unit whose contracts {pid}'s Verus units assume) could not be run on this tree: {r.undecided[0][:200]}")
+                dep_notes.append(f"{r.name}: Kani-proved contracts assumed by this property's Verus stand-ins; re-run in this run ({'failed / undecided' if (kbad or r.undecided) else 'verified'})")
+                solver += r.solver_s
+                continue
             base = r.name.split("@")[0]
             _, ext, _ = unitdeps.info(base)
             bad = []
